@@ -60,6 +60,13 @@ func filterDependencies(n *component_definition.Property, metas []*component_def
 	if len(result) == 0 {
 		return nil, errors.Errorf("inject '%s' not found available components", n)
 	}
+	//remove the holder itself before narrowing, so that it can never win the single-candidate selection
+	result = fas.Filter(result, func(m *component_definition.Meta) bool {
+		return !n.Holder.Meta.IsSelf(m)
+	})
+	if len(result) == 0 {
+		return nil, errors.Errorf("inject '%s': self inject not allowed", n)
+	}
 	//filter qualifier
 	if qualifierName, isQualifier := n.Args().Find(component_definition.ArgQualifier); isQualifier {
 		result = fas.Filter(result, func(m *component_definition.Meta) bool {
